@@ -1145,6 +1145,14 @@ def buf_directed():
     q = [Req("/" + ch, chunks=[ch.encode() * 30, ch.upper().encode() * 45, ch.encode() * 20]) for ch in "xyz"]
     out.append(("buf-three-queued", BufScenario(q, send_plan=[0] * 14, lookahead=2)))
     out.append(("buf-three-queued-trickle", BufScenario(q, send_plan=[4] + [0] * 9 + [9, 0, 0, 13], lookahead=2, n_workers=2, sndbuf=64, overflow=120)))
+    # regression for a FALSE stall verdict of an earlier version of this harness (raw 2500-step budget): three responses trickle
+    # through a 32-byte send buffer with send_bytes = high_watermark = 100; while 0 < total_outbufs_len < send_bytes and a request
+    # is in service the I/O thread polls without flushing (writable() true, handle_write declines), which costs many steps
+    # under schedules that favour it -- and then completes (1321 bytes)
+    s3 = [Req("/a", chunks=[b"1" * 50, b"2" * 50, b"3" * 333, b"4" * 20]), Req("/b", chunks=[b"5" * 10]),
+          Req("/c", chunks=[b"6", b"7" * 20, b"8" * 200, b"9" * 333, b"0" * 20])]
+    out.append(("buf-slow-quiescence", BufScenario(s3, send_plan=[7, 0, 64, 20, 0, 1048576, 1, 0, 7, 64, 64, 0], send_bytes=100, sndbuf=32,
+                                                   strbuf_limit=16, overflow=200, high_watermark=100, granularity="attrs")))
     e = Req("/e", expect=True, body=b"12345", chunks=big)
     out.append(("buf-expect", BufScenario([b, e], cuts=[len(b.bytes()) + len(e.head())], send_plan=[20, 0, 6, 0, 0, 0], lookahead=1, n_workers=2)))
     return out
